@@ -443,6 +443,9 @@ where
     fn find_full(&mut self, ai: usize, borrow: bool, key: Key, write: Option<(usize, u64)>, byref: bool) -> Option<(Row, Option<EntityDirectAny>)>;
     /// Full-column scan pinned to archetype `ai` through `ecs_iter!` / `ecs_iter_borrow!`.
     fn iter_full(&mut self, ai: usize, borrow: bool, write: Option<(usize, usize, u64)>) -> Vec<(Row, Option<EntityDirectAny>)>;
+    /// `ecs_find!` / `ecs_find_borrow!` with a PARAMETERLESS closure (`|| true`) and a dynamic key:
+    /// matches every archetype, the closure runs iff the entity is found.
+    fn find_unit(&mut self, borrow: bool, key: Key) -> bool;
     /// Multi-archetype query sites, mut-mode macros.
     fn query_mut(&mut self, site: usize, mac: QMacro, key: Option<Key>, hook: &mut dyn VisitHook<Self>) -> Option<Step>;
     /// Multi-archetype query sites, borrow-mode macros.
